@@ -574,6 +574,53 @@ theorem auto_nearest_closed (p : Param ℝ) (v : ℝ) (c : Interval ℝ) (p' : P
       rw [hp']; exact key
     · rw [hacc, hokl] at b2; cases b2
 
+/-- the width hypothesis of `auto_total` is needed: on `]0, TINY/2[` (precision `TINY`) the
+auto-correcting setter raises for the request 5 — limit, limit + TINY and limit - TINY are all
+rejected — and, by `reject_unchanged`, leaves the parameter as it was -/
+theorem auto_narrow_witness :
+    let T : ℝ := Constants.TINY
+    let c : Interval ℝ := Interval.make (.fin 0) (.fin (T / 2)) false false T
+    let p : Param ℝ := ⟨T / 4, 0, some c, true⟩
+    p.Inv ∧ p.setValueAuto 5 = .error .constraint := by
+  intro T c p
+  have hT : 0 < T := TINY_pos
+  have hTs : T < 1 := by
+    show (Constants.TINY : ℝ) < 1
+    simp only [Constants.TINY, ScalarReal.ofRat_eq]; norm_num
+  have hc : p.constraint = some c := rfl
+  have mem : ∀ x : ℝ, c.isCorrect x = true ↔ 0 < x ∧ x < T / 2 := fun x => isCorrect_open 0 (T / 2) T x
+  have rej : ∀ x : ℝ, x ≠ T / 4 → ¬ (0 < x ∧ x < T / 2) → p.setValueBase x = .error .constraint := by
+    intro x hx hn
+    rw [setValue_raises_iff]
+    refine ⟨rfl, ?_, c, hc, ?_⟩
+    · show (0 : ℝ) / 2 < |x - T / 4|
+      simp only [zero_div, abs_pos, ne_eq, sub_eq_zero]; exact hx
+    · rw [← isCorrect_iff, mem]; exact hn
+  constructor
+  · intro c' hc'; cases hc'
+    rw [← isCorrect_iff, mem]
+    show 0 < T / 4 ∧ T / 4 < T / 2
+    constructor <;> linarith
+  · have h5 : c.isCorrectB (.fin 5) = false := by
+      have : c.isCorrect 5 = false := by
+        rw [Bool.eq_false_iff, Ne, mem]; intro h; linarith [h.2]
+      exact this
+    have hg : c.geV (.fin 5) = false := by
+      rw [Bool.eq_false_iff, Ne, geV_iff]
+      show ¬ ((5 : ℝ) : EReal) ≤ ((0 : ℝ) : EReal)
+      rw [EReal.coe_le_coe_iff]; norm_num
+    have hlim : c.getAcceptedLimit (.fin 5) = .fin (T / 2 - T) := by
+      unfold getAcceptedLimit
+      rw [h5, hg]
+      simp [strictUpperBound, c, Interval.make, Bound.subS]
+    have e1 := rej 5 (by intro h; linarith) (by intro h; linarith [h.2])
+    have e2 := rej (T / 2 - T) (by intro h; linarith) (by intro h; linarith [h.1])
+    have e3 := rej (T / 2 - T + T) (by intro h; linarith) (by intro h; linarith [h.2])
+    have e4 := rej (T / 2 - T - T) (by intro h; linarith) (by intro h; linarith [h.1])
+    simp only [setValueAuto, e1, hc, hlim, e2]
+    have e3' : p.setValueBase (T / 2 - T + Constants.TINY) = .error .constraint := e3
+    have e4' : p.setValueBase (T / 2 - T - Constants.TINY) = .error .constraint := e4
+    rw [e3']; exact e4'
 /-! ## non-vacuity of the hypotheses -/
 
 /-- `]0,1[` with the default precision is wide -/
